@@ -171,6 +171,13 @@ def targeted_mutants(doc_small, doc_shipped):
         "let shadowing twice": "let p = 1 in let p = p + 1 in let p = p * 2 in p == 4",
         "let inside function argument": "to_string(let a = request.target.port in a + 1) == \"81\"",
     })
+    # the parser matches the word operators without regard to case; whatever it accepts must then also be built
+    bad_rules.update({
+        "upper-case AND": "1 == 1 AND true", "mixed-case Or": "false Or request.target.port > 0", "upper-case XOR": "true XOR false",
+        "mixed-case aNd inside a group": "(request.target.port > 0 aNd true) oR false", "upper-case words chained": "true AND true OR false XOR true",
+        "upper-case hex prefix": "0XFF == 255", "upper-case binary prefix": "0B11 == 3", "upper-case octal prefix": "0O17 == 15",
+        "upper-case IF": "IF true THEN true ELSE false", "upper-case LET": "LET a = 1 IN a == 1", "upper-case TRUE": "TRUE",
+    })
     for rname, f in bad_rules.items():
         m("rule filter: " + rname, doc_small, lambda d, f=f: d["rules"].insert(0, {"filter": f, "target": "direct"}), "rule")
     for depth in (10, 100, 1000, 10000, 100000):
